@@ -142,6 +142,15 @@ def _scalar_symbols(op, case0, factor):
     return args, syms, getters
 
 
+def _f64_consistent(f64vals, mpvals, scale):
+    """the float64 backend's own accuracy is C02's subject: the three-way comparison is made only where it agrees with the
+    60-digit backend to 1e-10 (ill-conditioned points drop out instead of raising a false alarm)"""
+    try:
+        return all(opcheck.close(x, y, mpf("1e-10"), scale) or R.angle_close(x, y, mpf("1e-10") * scale) for x, y in zip(f64vals, mpvals))
+    except Exception:  # noqa: BLE001
+        return False
+
+
 class _Complex(Exception):
     pass
 
@@ -301,7 +310,7 @@ def check_case(cell, case, ctx):
                     fail("value", f"component {R.coord_names(sysr)[k]} evaluates to {opcheck.fmt(g)} but the 60-digit backend gives "
                          f"{opcheck.fmt(r)}; a={opcheck.fmt(a)} b={opcheck.fmt(b) if b else None} scalars={ {k2: opcheck.fmt(v) if not isinstance(v, (dict, list, str)) else v for k2, v in s_ref.items()} }")
                     return
-            if ref64 is not None and p["a"]["stratum"] == "moderate":
+            if ref64 is not None and p["a"]["stratum"] == "moderate" and _f64_consistent(obs.stored(ref64), rst, scale):
                 st64 = obs.stored(ref64)
                 for k, (g, r) in enumerate(zip(got, st64)):
                     if obs.finite(r) and not opcheck.close(g, r, opcheck.F64_TOL, scale) and not R.angle_close(g, r, opcheck.F64_TOL * scale):
@@ -326,7 +335,7 @@ def check_case(cell, case, ctx):
                 fail("value", f"evaluates to {opcheck.fmt(g)} but the 60-digit backend gives {opcheck.fmt(ref)}; a={opcheck.fmt(a)} "
                      f"b={opcheck.fmt(b) if b else None}")
                 return
-            if ref64 is not None and p["a"]["stratum"] == "moderate" and obs.finite(ref64):
+            if ref64 is not None and p["a"]["stratum"] == "moderate" and obs.finite(ref64) and _f64_consistent([ref64], [ref], scale):
                 ok = opcheck.close(g, ref64, opcheck.F64_TOL, scale) or (op.result == "angle" and R.angle_close(g, ref64, opcheck.F64_TOL * scale))
                 if op.name == "deltaangle":
                     ok = opcheck.close(mpmath.cos(g), mpmath.cos(mpf(float(ref64))), opcheck.F64_TOL, 1)
